@@ -260,5 +260,5 @@ def classify(case):
 def subchecks(tier):
     return [
         Sub("all_entries", gen=gen_all, shards=(8, 16)),
-        Sub("sym", strategy=s_sym(), n=(60, 1500), shards=(8, 16), shrink=False),
+        Sub("sym", strategy=s_sym(), n=(150, 1500), shards=(16, 16), shrink=False),
     ]
